@@ -139,7 +139,9 @@ fn index(buf: &[u8], bounds: &mut Bounds) -> io::Result<()> {
         let start = offset + (prev_buf_len - buf.len());
         let end = start + len;
 
-        *buf = &buf[len..];
+        *buf = buf
+            .get(len..)
+            .ok_or_else(|| io::Error::from(io::ErrorKind::UnexpectedEof))?;
 
         Ok((start, end))
     }
@@ -158,7 +160,9 @@ fn index(buf: &[u8], bounds: &mut Bounds) -> io::Result<()> {
         let start = offset + (prev_buf_len - buf.len());
         let end = start + len;
 
-        *buf = &buf[len..];
+        *buf = buf
+            .get(len..)
+            .ok_or_else(|| io::Error::from(io::ErrorKind::UnexpectedEof))?;
 
         Ok(end)
     }
